@@ -40,15 +40,26 @@ def load_contracts():
 
 
 @task("verify")
-def t_verify(tier, fq, replay=None, part=None, nparts=None):
+def t_verify(tier, fq, replay=None, part=None, nparts=None, tag=None, vfilter=None):
+    """tag = {"prop": P, "include": [fnmatch...], "exclude": [fnmatch...]}: this contract is a callee whose
+    clauses matching include (and not exclude) carry property P's argument: their obligations are counted
+    for P as well (modular verification: the caller's proof for P assumed exactly these clauses).
+    vfilter: fnmatch patterns selecting variants of the contract."""
+    import fnmatch
     from .contract import verify, REGISTRY
 
     load_contracts()
     spec = REGISTRY[fq]
-    r = verify(spec, tier, part=(part, nparts) if nparts else None)
+    r = verify(spec, tier, part=(part, nparts) if nparts else None, vfilter=vfilter)
     tr = TaskResult("verify:" + fq + ("" if not nparts else "[%d/%d]" % (part, nparts)))
     for ob in r.obligations:
         d = ob.to_dict()
+        if tag:
+            inc = any(fnmatch.fnmatchcase(ob.name, p) for p in tag.get("include", ["*"]))
+            exc = any(fnmatch.fnmatchcase(ob.name, p) for p in tag.get("exclude", []))
+            if inc and not exc and tag["prop"] not in d.get("props", []):
+                d["props"] = list(d.get("props", [])) + [tag["prop"]]
+                d["tagged_dependency"] = True
         rp = spec.replay_hint(ob) if hasattr(spec, "replay_hint") else None
         if rp and ob.status == "refuted":
             d["replay"] = rp
@@ -367,15 +378,20 @@ def t_lemma_arith(tier, max_n=2):
 
             ob.model = model_to_dict(s.model())
         tr.obligations.append(ob.to_dict())
-        # canary: without its hypotheses (exponent-1 matching, one quantity type per unit) the lemma must be refutable
-        if "magnitude-product/shape(1,1)" in name or "physical-sum/shape(1,1)" in name:
-            s2 = z3.Solver()
-            s2.set("timeout", 20000)
-            s2.add(z3.Not(goal))
-            r2 = s2.check()
-            tr.extra.setdefault("canaries", []).append({"name": "canary[%s without hypotheses]" % name, "expected": "sat", "got": str(r2)})
-            if r2 != z3.sat:
-                tr.error = "canary failed: %s is provable without its hypotheses (vacuous encoding?)" % name
+    # canaries (vacuity / sensitivity): the same lemmas stated for a matching step that ignores the exponent
+    # of the re-expressed entry must be refutable
+    from contracts.arith import arith_lemma_canaries
+
+    for name, hyp, goal in arith_lemma_canaries():
+        s2 = z3.Solver()
+        s2.set("timeout", 20000)
+        for h in hyp:
+            s2.add(h)
+        s2.add(z3.Not(goal))
+        r2 = s2.check()
+        tr.extra.setdefault("canaries", []).append({"name": name, "expected": "sat", "got": str(r2)})
+        if r2 != z3.sat:
+            tr.error = "canary failed: %s is provable (vacuous encoding?)" % name
     return tr
 
 
@@ -442,4 +458,166 @@ def t_bounded_native(tier, probe, props, bound, what):
     elif res.get("error"):
         tr.error = "bounded stand-in %s crashed: %s" % (probe, str(res.get("error"))[-400:])
     tr.bounded.append(entry)
+    return tr
+
+
+# ------------------------------------------------------------------------------------------------
+# C15, ground half: every read-only query of UnitDatabase, executed from its real AST on the registry
+# a shipped filler builds, leaves that registry as it was and answers the same when asked again.
+def _registry_snapshot(db):
+    """canonical, identity-aware picture of what the registry holds (memo tables excluded)"""
+    from .values import SStr, SNum, SBool, SNone, SRef, HList, HDict, HSet, HObj, STuple
+
+    def c(v, depth=0):
+        if v is SNone:
+            return None
+        if isinstance(v, SStr):
+            return v.py if v.py is not None else repr(v)
+        if isinstance(v, SNum):
+            return v.concrete()
+        if isinstance(v, SBool):
+            return v.concrete()
+        if isinstance(v, STuple):
+            return tuple(c(x, depth + 1) for x in v.items)
+        if isinstance(v, SRef):
+            o = v.o
+            if isinstance(o, HList):
+                return ("list", o.oid, tuple(c(x, depth + 1) for x in o.items))
+            if isinstance(o, HSet):
+                return ("set", o.oid, tuple(sorted(repr(c(x, depth + 1)) for x in o.items)))
+            if isinstance(o, HDict):
+                return ("dict", o.oid, tuple((c(k, depth + 1), c(x, depth + 1)) for k, x in o.entries))
+            if isinstance(o, HObj):
+                if depth > 3:
+                    return ("obj", o.oid)
+                name = getattr(o.cls, "name", "?")
+                if name in ("UnitInfo", "CategoryInfo"):
+                    return ("obj", name, o.oid, tuple((k, c(x, depth + 1)) for k, x in sorted(o.fields.items()) if not k.startswith("_")))
+                return ("obj", name, o.oid)
+        return repr(type(v).__name__)
+
+    f = db.o.fields
+    return tuple((k, c(f[k])) for k in ("quantity_types", "unit_to_unit_info", "categories_to_quantity_types"))
+
+
+def _canon_result(I, v):
+    from .values import SStr, SNum, SBool, SNone, SRef, HList, HDict, HSet, HObj, STuple
+
+    if v is SNone:
+        return None
+    if isinstance(v, SStr):
+        return v.py if v.py is not None else repr(v)
+    if isinstance(v, (SNum, SBool)):
+        return v.concrete()
+    if isinstance(v, STuple):
+        return tuple(_canon_result(I, x) for x in v.items)
+    if isinstance(v, SRef):
+        o = v.o
+        if isinstance(o, HList):
+            return [_canon_result(I, x) for x in o.items]
+        if isinstance(o, HSet):
+            return sorted(repr(_canon_result(I, x)) for x in o.items)
+        if isinstance(o, HDict):
+            return [(_canon_result(I, k), _canon_result(I, x)) for k, x in o.entries]
+        if isinstance(o, HObj):
+            return ("obj", getattr(o.cls, "name", "?"), o.oid)
+    try:
+        return [_canon_result(I, x) for x in I.iterate(v)]
+    except Exception:
+        return repr(type(v).__name__)
+
+
+def _query_list(T):
+    """(label, method, args) over names taken from the registry itself plus names it does not have"""
+    qts = list(T.qts)
+    cats = list(T.cats)
+    q0 = "length" if "length" in T.qts else qts[0]
+    q1 = "time" if "time" in T.qts else qts[-1]
+    u0 = T.qts[q0][0].unit
+    u1 = T.qts[q0][-1].unit
+    w0 = T.qts[q1][0].unit
+    c0 = next((c for c in cats if T.cats[c].qt == q0 and T.cats[c].valid_units), cats[0] if cats else q0)
+    c1 = next((c for c in cats if T.cats[c].qt == q0 and not T.cats[c].valid_units), c0)
+    out = [("GetUnits()", "GetUnits", []), ("GetInfos()", "GetInfos", []), ("GetQuantityTypes()", "GetQuantityTypes", []), ("IterCategories()", "IterCategories", [])]
+    for q in (q0, q1, "no such type"):
+        for m in ("GetUnits", "GetInfos", "GetUnitNames", "GetBaseUnit", "CheckQuantityType"):
+            out.append(("%s(%r)" % (m, q), m, [q]))
+    for c in dict.fromkeys((c0, c1, "no such category")):
+        for m in ("GetCategoryInfo", "GetCategoryQuantityType", "IsValidCategory", "GetValidUnits", "GetDefaultValue", "GetDefaultUnit"):
+            out.append(("%s(%r)" % (m, c), m, [c]))
+    for u in (u0, u1, w0, "no such unit"):
+        for m in ("GetQuantityType", "GetDefaultCategory", "FindUnitCase"):
+            out.append(("%s(%r)" % (m, u), m, [u]))
+    for q, u in ((q0, u0), (q0, u1), (q0, w0), (c0, u1), ("no such type", u0)):
+        for m in ("GetInfo", "GetUnitName", "CheckQuantityTypeUnit", "CheckCategoryUnit"):
+            out.append(("%s(%r, %r)" % (m, q, u), m, [q, u]))
+    for a in ((q0, u0, u1, 2.5), (c0, u1, u0, 2.5), (q0, u0, w0, 1.0), (q0, [(u0, 2)], [(u1, 2)], 3.0)):
+        out.append(("Convert%r" % (a,), "Convert", list(a)))
+    return out
+
+
+@task("table_c15_queries")
+def t_table_c15_queries(tier, filler):
+    from .table import get_table, explore_fn, _tables
+    from .values import SStr, SNum, STuple, SRef, HList
+    from .engine import OutOfSubset
+
+    tr = TaskResult("table_c15_queries:%s" % filler)
+    T = table_or_obligation(tr, filler, 0, ("C15",))
+    if T is None:
+        return tr
+    PR = ("C15",)
+    add = tr.obligations.append
+
+    def sv(I, x):
+        if isinstance(x, str):
+            return SStr(x)
+        if isinstance(x, (int, float)):
+            return SNum(x)
+        if isinstance(x, list):
+            return SRef(I.P.alloc(HList([sv(I, y) for y in x])))
+        if isinstance(x, tuple):
+            return STuple([sv(I, y) for y in x])
+        raise ValueError(x)
+
+    rebuilt = 0
+    skipped = []
+    for label, meth, args in _query_list(T):
+        base = _registry_snapshot(T.db)
+        answers = []
+        status = None
+        for rep in range(2):
+            def run(I, P):
+                r = I.call(I.getattr(T.db, meth), [sv(I, a) for a in args], {})
+                return _canon_result(I, r)
+
+            try:
+                res, _ = explore_fn(T, run)
+            except OutOfSubset as e:
+                status = "oos: %s" % e
+                break
+            if len(res) != 1 or res[0].outcome[0] == "oos":
+                status = "oos: %s" % (res[0].outcome[1] if res else "no path")
+                break
+            oc = res[0].outcome
+            answers.append(("raise", oc[1].o.clsname()) if oc[0] == "raise" else ("return", oc[1]))
+        if status is not None:
+            skipped.append("%s (%s)" % (label, status[:80]))
+            # even when the call leaves the subset half-way, what it did to the registry so far is visible
+        after = _registry_snapshot(T.db)
+        same = after == base
+        rp = {"probe": "pure_queries", "hint": {"filler": filler, "method": meth, "args": args}}
+        add(_ground("queries[%s]/%s/registry-unchanged" % (filler, label), PR, same, "" if same else "the registry's units / categories differ after the call", rp))
+        if len(answers) == 2:
+            add(_ground("queries[%s]/%s/same-answer-when-repeated" % (filler, label), PR, answers[0] == answers[1], "" if answers[0] == answers[1] else "first %r, then %r" % (str(answers[0])[:200], str(answers[1])[:200]), rp))
+        if not same:
+            if rebuilt >= 2:
+                tr.notes.append("stopped after %d queries that changed the registry" % (rebuilt + 1))
+                break
+            rebuilt += 1
+            _tables.pop(filler, None)
+            T = get_table(filler)
+    if skipped:
+        tr.notes.append("queries outside the interpreter's subset (not decided here): " + "; ".join(skipped))
+    tr.functions.append({"function": "barril.units.unit_database:UnitDatabase (read-only queries, ground on the %s registry)" % filler, "level": "proof", "role": "real AST executed on the concrete registry the filler builds; %d queries" % len(_query_list(T))})
     return tr
